@@ -13,7 +13,7 @@ def run(ctx):
     ctx.proof_side(DIRS, "Properties/C16.v", extra_trusted=[
         "hand-written interleaving model of runtime/workerpool/workerpool.go + task.go and of Stack.Push/PopOrWait/SignalShutdown (Model.v), tied to the code by the correspondence check only",
         "Counter.WaitIsZero and WaitGroup.Wait are modelled as steps enabled iff the awaited condition holds (condition-variable discipline of Counter: C17); critical sections without blocking calls are single steps",
-        "group.go: hand-written model (Group.v) of the counter aggregation in which one Counter.update/set with its whole subscriber chain pool -> group -> parent group is ONE atomic step (the code runs the chain under the valueMutex of every counter on the path, locks taken child -> parent); tied to the code by sequential lockstep histories and free concurrent runs (sub-command group)",
+        "group.go: hand-written model (Group.v) of the counter aggregation in which one Counter.update/set with its whole subscriber chain pool -> group -> parent group is ONE atomic step; since round 4 the per-level model GroupConc.v (lock, write, subscriber call with the child's valueMutex held, unlocks on return; any threads, observers at every step) is PROVED to refine it for every schedule (C16_group_chains_linearise, C16_group_wait_sound); that Counter.update/set hold valueMutex across notifySubscribers and that readers take that mutex is tied to the code by the sequential lockstep histories, the free concurrent runs and the observer scenarios over chains of depth 1..40 (sub-command group, family watch: stamped reads judged against accepted-and-parked tasks); the unlock-before-notify variant is refuted in the model (C16_group_wait_refuted_unlock_first)",
         "option surface (round 2): the effective worker count / cancel flag / panic flag of a pool is computed in Coq from the caller's option list and the constructor (New or Group.CreatePool) by Options.v (defaults, group default, caller's options in order, last wins; theorems C16_group_pool_options, C16_pool_options_resolved); that options.Apply applies options in order and that the shutdown-signal channel is sized after the options is tied to the code by the correspondence only (scripts over option lists, worker counts around and above NumCPU / 2*NumCPU / 4*NumCPU with every worker busy at Shutdown)",
         "external waiters on the pool's public Queue / PendingTasksCounter (round 2, Waiters.v): a waiter step = lock, test, return or register-and-unlock in one step; the Broadcast of PopOrWait on elementRemoved falls into the dispatcher's pop step; counter waits are steps enabled iff the condition holds (C17); that Stack.Push / SignalShutdown wake with Broadcast (not Signal) is tied to the code by the lockstep scripts of the sub-command waiters only (the Signal variant is refuted in the model: C16_refuted_signal_wakeup)",
         "shutdown termination is proved as absence of non-final stuck states plus progress (C16_shutdown_terminates, C16_shutdown_progress) for every schedule of the repaired model; that every fair maximal run is finite (no livelock) is not proved - covered by the watchdogs of the correspondence runs only",
@@ -23,7 +23,7 @@ def run(ctx):
             ctx.seed += 1000
             ctx.corr(hx, ["run", "--n", "1500", "--free", "300"], cases_name="cases%d.v" % k, timeout=900)
         ctx.seed -= 5000
-        ctx.corr(hx, ["group", "--n", "1500", "--free", "150"], cases_name="gcases.v", timeout=900)
+        ctx.corr(hx, ["group", "--n", "1500", "--free", "150", "--watch", "60", "--watchrounds", "400"], cases_name="gcases.v", timeout=900)
         ctx.corr(hx, ["waiters", "--n", "400"], cases_name="wcases.v", timeout=900)
     else:
         ctx.corr(hx, ["run", "--n", "500", "--free", "60"], timeout=300)
